@@ -13,9 +13,11 @@ import (
 	"sort"
 	"strings"
 
-	_ "github.com/ovh/kmip-go" // registers tags, enumerations and masks
+	"github.com/ovh/kmip-go" // registers tags, enumerations and masks
 	"github.com/ovh/kmip-go/ttlv"
 	"verifharness/pinned"
+	"verifharness/reftext"
+	"verifharness/refttlv"
 	"verifharness/vlib"
 )
 
@@ -77,7 +79,7 @@ func GenPinned() error {
 func runC17(c *vlib.Check) {
 	c.Rule = "the whole registry, exhaustively: every 24-bit tag number is probed for a name; every registered tag, every value of every enumeration and every flag of every bit mask is compared with " +
 		"pinned/registry.json in both directions and round-tripped number->name->number and name->number->name through TagString, EnumName/EnumByName, AppendBitmaskString/BitmaskByStr and one-item XML, JSON and text documents; " +
-		"plus unregistered numbers and names per scope; every named value is also read into one reused ttlv.Value per text format, right after an item of another enumeration; registration histories: after ttlv.RegisterEnum of one vendor value on each enumeration in turn (and RegisterTag of one tag) every pinned name and number still resolves both ways and the registry is the pinned one plus exactly the extensions. distinct = distinct (scope, name, number) triples"
+		"plus unregistered numbers and names per scope; every single bit 0..31 and mixed values of both masks written to XML / JSON and read by the independent reader and the library; every named value is also read into one reused ttlv.Value per text format, right after an item of another enumeration; registration histories: after ttlv.RegisterEnum of one vendor value on each enumeration in turn (and RegisterTag of one tag) every pinned name and number still resolves both ways and the registry is the pinned one plus exactly the extensions. distinct = distinct (scope, name, number) triples"
 	c.Assumptions = []string{"pinned/registry.json was generated from the pinned commit and cross-checked against every element and enumeration name of the 419 OASIS vector files and against the specification's tables"}
 	pin, err := LoadPinnedRegistry()
 	if err != nil {
@@ -300,6 +302,64 @@ func runC17(c *vlib.Check) {
 		}
 		if _, err := ttlv.BitmaskByStr(tag, "NoSuchFlag"); err == nil {
 			v("mask-unknown-name-accepted", "%s: unknown flag name accepted", mname)
+		}
+		// every single bit 0..31 (named or not) and mixed values: what the XML and JSON forms write must denote the same
+		// number for the independent reader (pinned names) and for the library's own reader
+		var vals []uint32
+		for bit := 0; bit < 32; bit++ {
+			vals = append(vals, uint32(1)<<uint(bit))
+		}
+		named := uint32(1)<<uint(len(flags)) - 1
+		vals = append(vals, 0, named, named|0x80000000, 0x80000001, 0xC0000000, 0x7FFFFFFF, 0xFFFFFFFF, 1<<uint(len(flags)), 1<<uint(len(flags))|1)
+		for _, u := range vals {
+			val := int32(u)
+			c.Eval([]byte(fmt.Sprint("mask-value", mname, u)), true)
+			var mt reflect.Type
+			switch mname {
+			case "CryptographicUsageMask":
+				mt = reflect.TypeOf(kmip.CryptographicUsageMask(0))
+			case "StorageStatusMask":
+				mt = reflect.TypeOf(kmip.StorageStatusMask(0))
+			default:
+				v("machinery:mask-type", "no Go type known to the harness for mask %s", mname)
+				continue
+			}
+			iv := reflect.New(mt).Elem()
+			iv.SetInt(int64(val))
+			item := iv.Interface()
+			for _, enc := range []struct {
+				n     string
+				m     func(any) []byte
+				u     func([]byte, any) error
+				parse func([]byte) (*refttlv.Node, error)
+			}{{"xml", ttlv.MarshalXML, ttlv.UnmarshalXML, reftext.XMLToTree}, {"json", ttlv.MarshalJSON, ttlv.UnmarshalJSON, reftext.JSONToTree}} {
+				var doc []byte
+				if pv, _ := vlib.Catch(func() { doc = enc.m(item) }); pv != nil {
+					v("mask-write-panic:"+enc.n, "%s value 0x%08X: writing panicked: %v", mname, u, pv)
+					continue
+				}
+				if tn, perr := enc.parse(doc); perr != nil || uint32(tn.I) != u {
+					got := int64(-1)
+					if tn != nil {
+						got = tn.I
+					}
+					v("mask-write:"+enc.n, "%s value 0x%08X is written as %s, which denotes 0x%X for the independent reader (err %v)", mname, u, doc, got, perr)
+				}
+				back := reflect.New(mt)
+				if pv, _ := vlib.Catch(func() { err = enc.u(doc, back.Interface()) }); pv != nil || err != nil || int32(back.Elem().Int()) != val {
+					v("mask-roundtrip:"+enc.n, "%s value 0x%08X written as %s reads back as 0x%X (err %v, panic %v)", mname, u, doc, uint32(back.Elem().Int()), err, pv)
+				}
+			}
+			// MarshalText / UnmarshalText of the typed value
+			if m, ok := item.(encoding.TextMarshaler); ok {
+				txt, terr := m.MarshalText()
+				back := reflect.New(mt)
+				if um, ok2 := back.Interface().(encoding.TextUnmarshaler); ok2 && terr == nil {
+					if uerr := um.UnmarshalText(txt); uerr != nil || int32(back.Elem().Int()) != val {
+						v("mask-text-roundtrip", "%s value 0x%08X: MarshalText gives %q, UnmarshalText of it gives 0x%X (%v)", mname, u, txt, uint32(back.Elem().Int()), uerr)
+					}
+				}
+			}
 		}
 	}
 	for mname := range live.Masks {
